@@ -10,7 +10,7 @@ VARIABLES ch, l
 Init == ch = 0 /\ l = 0
 Next == \/ (ch = 0 /\ l = 0 /\ ch' \in 1..NCH /\ l' = 0)
         \/ (ch > 0 /\ l = 0 /\ ch' = ch /\ l' \in { k \in 1..Len(Trace) : k % NCH = ch - 1 })
-Proj(o) == [origin |-> o.origin, cond |-> o.cond, status |-> o.status, body |-> o.body]
+Proj(o) == [origin |-> o.origin, cond |-> o.cond, status |-> o.status, body |-> o.body, option |-> o.option]
 Allowed == l > 0 =>
     LET e == Trace[l]
         x == Proj(Outcome(e.req, e.ct))
